@@ -76,6 +76,8 @@ def world_job(job):
             del decoy
         except Exception:  # noqa  (the decoy's own fate is judged when it is a world of its own)
             pass
+    if spec.get("real_api"):
+        res["probes"]["real_api_world"] = 1
     try:
         w = world.World(spec)
     except world.WorldUnbuildable as e:
